@@ -123,6 +123,8 @@ def run_impl(maxsize: int, events: list) -> list[str]:
                 outs.append(rig.feed(bytes.fromhex(ev[1])))
             elif ev[0] == 'cancel':
                 outs.append(rig.cancel())
+            elif ev[0] == 'chunkcancel':
+                outs.append(rig.feed_racing_cancel(bytes.fromhex(ev[1])))
             elif ev[0] == 'setmax':
                 outs.append(rig.setmax(ev[1]))
     finally:
@@ -133,7 +135,8 @@ def run_impl(maxsize: int, events: list) -> list[str]:
 def run_model(maxsize: int, events: list) -> list[str]:
     lines = [f'frame init {maxsize}']
     for ev in events:
-        if ev[0] == 'chunk':
+        if ev[0] in ('chunk', 'chunkcancel'):
+            # a cancellation changes nothing in the model, whenever it falls
             lines.append('frame feed ' + (ev[1] or '-'))
         elif ev[0] == 'cancel':
             lines.append('frame cancel')
@@ -155,7 +158,9 @@ def classify_cancel(events: list, maxsize: int) -> list:
     seen = b''
     cls = []
     for ev in events:
-        if ev[0] == 'chunk':
+        if ev[0] == 'chunkcancel':
+            cls.append('coinciding-with-data')
+        if ev[0] in ('chunk', 'chunkcancel'):
             seen += bytes.fromhex(ev[1])
         elif ev[0] == 'cancel':
             # position inside the current (incomplete) message
@@ -194,6 +199,12 @@ def run(ctx: Ctx) -> None:
         if rng.random() < 0.33 and len(events) > 1:
             for _ in range(rng.randrange(1, 3)):
                 events.insert(rng.randrange(1, len(events) + 1), ['cancel'])
+        if rng.random() < 0.25:
+            # timeouts coinciding with the arrival of data
+            for _ in range(rng.randrange(1, 4)):
+                k = rng.randrange(len(events))
+                if events[k][0] == 'chunk':
+                    events[k] = ['chunkcancel', events[k][1]]
         cases.append((maxsize, events, fault))
     if ctx.driver_ok:
         check_types(ctx)
@@ -206,9 +217,10 @@ def run(ctx: Ctx) -> None:
         ctx.evaluations += 1
         ctx.count('fault:' + fault)
         ctx.count('max:%d' % maxsize)
-        ncancel = sum(1 for e in events if e[0] == 'cancel')
+        ncancel = sum(1 for e in events if e[0] in ('cancel', 'chunkcancel'))
+        ctx.count('racing-cancels:%d' % sum(1 for e in events if e[0] == 'chunkcancel'))
         ctx.count('cancels:%d' % ncancel)
-        nchunks = sum(1 for e in events if e[0] == 'chunk')
+        nchunks = sum(1 for e in events if e[0] in ('chunk', 'chunkcancel'))
         ctx.count('reads:%s' % ('1' if nchunks == 1 else '2-9' if nchunks < 10 else '10-99' if nchunks < 100 else '100+'))
         fi = flat(impl)
         if any(o.startswith('msg') for o in fi) and nchunks >= 2:
@@ -220,7 +232,7 @@ def run(ctx: Ctx) -> None:
                 idx = next(i for i in range(len(impl)) if model[i] != impl[i])
                 ctx.disagreements.append(Disagreement('frame', {'max': maxsize, 'events': events[: idx + 1]}, model[idx][:200], impl[idx][:200]))
         # oracle: what was delivered is the RFC reading of the bytes received so far
-        stream = b''.join(bytes.fromhex(e[1]) for e in events if e[0] == 'chunk')
+        stream = b''.join(bytes.fromhex(e[1]) for e in events if e[0] in ('chunk', 'chunkcancel'))
         want = reference(stream, maxsize)
         if fi != want:
             canon = {'cancel-at': classify_cancel(events, maxsize), 'fault': fault if ncancel == 0 else 'any'}
@@ -276,7 +288,7 @@ def replay(path: str) -> int:
     data = json.loads(open(path).read())
     rp = data['replay']
     impl = flat(run_impl(rp['max'], rp['events']))
-    stream = b''.join(bytes.fromhex(e[1]) for e in rp['events'] if e[0] == 'chunk')
+    stream = b''.join(bytes.fromhex(e[1]) for e in rp['events'] if e[0] in ('chunk', 'chunkcancel'))
     want = reference(stream, rp['max'])
     print('delivered:', impl)
     print('reference:', want)
